@@ -10,4 +10,49 @@ TEXT = {
    text="Theorems for every byte string: joining the pieces of split_statements with ';' gives back the source (C15_join), there is one more piece than semicolon tokens (C15_count), and a semicolon token is exactly one ';' byte that is its own lexical item (so never inside a string, quoted name or comment). "
         "The piece-alone = piece-in-context clause (locality), 'no piece contains a semicolon token' and the agreement with Parse are decided by the five-equation oracle on the implementation and by correspondence; not yet carried by a theorem.",
    note="Partial proof: join/count/semicolon-byte proved on the model; locality, no-semi and parse-order are oracle + correspondence. Uses the generated keyword table (side condition: no keyword maps to the semicolon kind, decided by vm_compute on every run)."),
+ "C01": dict(
+   text="Theorems: source parentheses are transparent to the writer at every level (C01_parens_transparent: same emitted pieces, so neither termination nor validity can depend on them); PQL precedence is the documented table; every operator the parser can build has a SQL rendering; the documented built-ins have the documented arities; every rewrite whose output is not a single SQL operand is parenthesised when used as an operand (the D3 defect class). "
+        "The two central clauses - the emitted text re-reads under SQL precedence as the translated tree, and evaluates like the PQL tree on every row - are not yet carried by a theorem: they are decided by byte-exact correspondence of the writer model with Compile on generated expression trees.",
+   note="Partial proof. Tables (precedence, binaryOps, knownFunctions with needsParens/arity/output templates) are regenerated from pql.go/parser.go on every run and the theorems re-checked against them. The SQL dialect's precedence is a written specification, not ClickHouse itself. Parameter snippets are copied verbatim and are outside the claim."),
+ "C02": dict(
+   text="Theorems on the attach conditions regenerated from splitQueries/canAttachSort: a sort (or top) shares the previous SELECT only if that query exists, keeps its column names and has neither ORDER BY nor LIMIT yet; a take only if it has no LIMIT yet; project/summarize/as/render never take one. These are exactly the decisions that can move a limit across a sort or attach a sort to renamed columns. "
+        "The end-to-end statement (SQL evaluation = left-to-right interpretation on every database) is not yet carried by a theorem; it is decided by correspondence of the split/write model with Compile on all operator sequences up to length 3 (quick) / 4 (thorough) and random longer ones.",
+   note="Partial proof over generated tables; order-preserving reading of subqueries is an assumption about the target dialect."),
+ "C05": dict(
+   text="Theorems: successful output ends with the statement terminator; no operator the parser can build reaches the 'unhandled binary op' fallback (table completeness, re-checked against binaryOps/operatorPrecedence on every run); every join kind the parser admits has a compiler case. "
+        "Lexical well-formedness, bracket balance, WITH structure, name resolution/uniqueness/use of CTEs are decided by correspondence only so far.",
+   note="Partial proof; the statement grammar of the target dialect is a written specification."),
+ "C06": dict(
+   text="Theorems on the statement loop of Compile: let statements after the query have no effect (C06_lets_after_query, for any prefix of lets and any suffix of lets); a later binding of a name shadows earlier bindings and parameters. "
+        "Denotation at every use site (join conditions, row counts), one-operand hygiene of substituted values and the never-substituted positions are decided by correspondence on let chains x parameter maps x use sites, and by the C13/C14 oracles.",
+   note="Partial proof. Parameters are inserted verbatim (caller's responsibility)."),
+ "C07": dict(
+   text="Theorem: binary operators sit on the documented precedence levels and nothing else is a binary operator (generated table). Grouping, association, `in`, signs, operator arguments/defaults, layout and synonym independence are decided by (i) correspondence of the parser model with Parse on generated programs in random layouts and (ii) an independent reference expression reader plus re-layout metamorphic oracle on the implementation; parser completeness is not yet carried by a theorem.",
+   note="Partial proof. Chained indexing a[1][2] is outside the documented grammar (rejected; DESIGN.md D13)."),
+ "C08": dict(
+   text="Theorems on the mechanism the property names: cutting a token range for a sub-parser never loses or reorders tokens (split, splitSemi); an unconsumed token in a range is an error (endSplit); if a statement's sub-parser stops early Parse fails; recorded errors are never dropped later. "
+        "The full statement (accepted => tokens = re-printed tree up to the three allowed omissions) is decided by the token-accounting oracle on the implementation (all single and double token corruptions sampled) and by parse correspondence; not yet carried by a theorem.",
+   note="Partial proof; error message texts are not modelled, only positions and the not-found/opaque algebra."),
+ "C10": dict(
+   text="Theorems on the generated Span tables: every Span method unions all span-bearing fields of its node type, each read with the accessor fitting its type (a field forgotten in a union breaks the proof on the next run). "
+        "That recorded spans are lexemes, Span() is first-to-last token, containment/sibling order, and error positions are decided by the span oracle on the implementation and by correspondence of every span and every Span() result (computed in the model from the generated table).",
+   note="Partial proof. Spans in partial trees of failed parses are checked on the implementation only."),
+ "C11": dict(
+   text="Theorems on the Walk table regenerated from ast.go: every node type that can reach the stack has a case (no panic branch; D8 class), all identifier/expression types are reachable, the only unpushed node fields are the documented CallExpr.Func and JoinOperator.Flavor, and optional fields are pushed under a nil guard (D9 class). "
+        "Exactly-once / parents-first / pruning for the stack machine are decided by correspondence of the table-driven machine with Walk (all pruning positions sampled) and by a reflection oracle; the generic machine theorem is not yet proved.",
+   note="Partial proof over the generated table."),
+ "C12": dict(
+   text="Theorems: Scan makes progress and cannot exhaust fuel above the input length; SplitStatements' slices are in bounds; Walk has no reachable default (panic) branch; the writer unwraps parentheses structurally (the D1 class cannot recur in the model: wx is a structural Fixpoint). "
+        "Parser fuel sufficiency is observed (the model returns FUEL, compared with the implementation on pathological nesting), not proved.",
+   note="Partial: wall-clock, stack and heap are observed under a 5 s watchdog. Compile's writer and split are structural recursions in the model (total by construction); the parser model uses fuel 6n+12."),
+ "C13": dict(
+   text="Theorems: a successful result is never empty; the arity rules are the documented ones (generated). 'Fails exactly when a documented rule is broken' is decided by an independent rules oracle on the implementation over programs with one planted violation at random position/depth, and by status correspondence.",
+   note="Partial proof."),
+ "C14": dict(
+   text="Theorem: the only syntactic write to any package-level variable of pql, parser and cmd/pql is the once-only initialisation of knownFunctions.m (generated from the source on every run). The model's compile is a Gallina function of (parameters, source) and takes the parameter map by value, so determinism, history-freedom and untouched parameters hold of the model by construction; they are tied to the code by a history/concurrency oracle (shared map, nil/zero/empty options, repeated and concurrent calls, -race build).",
+   note="Partial: data-race freedom under the Go memory model is observed with the race detector, not proved; sync.Once is trusted."),
+ "C16": dict(
+   text="Theorems on the line-loop model: a failure is sticky (exit status non-zero whatever follows); a read error gives non-zero status; a failing statement changes neither output nor prelude; an accepted query appends exactly its SQL and a blank line; an accepted let extends the prelude and prints nothing; output is append-only. "
+        "Equality with the one-shot specification for every line layout is decided by correspondence with the built binary and by a one-shot oracle using the library's own Compile; not yet carried by a theorem.",
+   note="Partial proof; OS I/O, signals, terminal detection outside the model."),
 }
